@@ -2,6 +2,8 @@ package c16
 
 import (
 	"context"
+	"crypto/sha256"
+	"encoding/hex"
 	"errors"
 	"fmt"
 	"io"
@@ -36,6 +38,15 @@ type record struct {
 	limit   int64
 	keep    int // keep at most this many of the bytes read
 
+	// mode is what the handler does with the body ("" = read to the end, never close):
+	// read-close | read-close-twice | partial-close (one read, then close)
+	mode string
+	// gate, when set, makes the handler wait after its first read until every
+	// request of the burst reached that point (or left the chain): overlap by
+	// construction instead of by luck
+	gate    *gate
+	arrived sync.Once
+
 	mu         sync.Mutex
 	entered    int // the server's handler chain was entered
 	returned   int
@@ -45,6 +56,8 @@ type record struct {
 	extra      int64         // bytes obtained by further reads after a non-EOF error
 	data       []byte
 	readErr    string // "" = clean io.EOF
+	partial    bool   // the handler stopped on purpose after its first read
+	sum        string // hex sha256 (first 8 bytes) of everything the handler obtained
 	stopped    bool   // gave up pulling (overrunStop)
 	seenCE     string
 	seenCL     int64
@@ -124,6 +137,7 @@ func (s *server) outer(chain http.Handler, w http.ResponseWriter, r *http.Reques
 		rec.returned++
 		first := rec.returned == 1
 		rec.mu.Unlock()
+		rec.arrive(false)
 		if first {
 			close(rec.done)
 		}
@@ -146,7 +160,7 @@ func (s *server) inner(w http.ResponseWriter, r *http.Request) {
 	rec.ran++
 	rec.seenCE = r.Header.Get("Content-Encoding")
 	rec.seenCL = r.ContentLength
-	bufN, keep, limit := rec.readBuf, rec.keep, rec.limit
+	bufN, keep, limit, mode := rec.readBuf, rec.keep, rec.limit, rec.mode
 	rec.mu.Unlock()
 	if bufN < 1 {
 		bufN = 4096
@@ -157,8 +171,10 @@ func (s *server) inner(w http.ResponseWriter, r *http.Request) {
 		data     []byte
 		rerr     error
 		stopped  bool
+		partial  bool
 	)
-	for {
+	h := sha256.New()
+	for first := true; ; first = false {
 		k, err := r.Body.Read(buf)
 		if room := keep - len(data); room > 0 {
 			if k < room {
@@ -166,9 +182,17 @@ func (s *server) inner(w http.ResponseWriter, r *http.Request) {
 			}
 			data = append(data, buf[:room]...)
 		}
+		h.Write(buf[:k])
 		n += int64(k)
+		if first {
+			rec.arrive(true)
+		}
 		if err != nil {
 			rerr = err
+			break
+		}
+		if first && mode == "partial-close" {
+			partial = true
 			break
 		}
 		if n > limit+overrunStop {
@@ -176,30 +200,84 @@ func (s *server) inner(w http.ResponseWriter, r *http.Request) {
 			break
 		}
 	}
-	if rerr != nil && rerr != io.EOF { // a refused body must stay refused
-		for i := 0; i < 2; i++ {
-			k, _ := r.Body.Read(buf)
-			extra += int64(k)
+	switch mode {
+	case "read-close", "partial-close":
+		_ = r.Body.Close()
+	case "read-close-twice":
+		_ = r.Body.Close()
+		_ = r.Body.Close()
+	default:
+		if rerr != nil && rerr != io.EOF { // a refused body must stay refused
+			for i := 0; i < 2; i++ {
+				k, _ := r.Body.Read(buf)
+				extra += int64(k)
+			}
 		}
 	}
+	sum := hex.EncodeToString(h.Sum(nil)[:8])
 	rec.mu.Lock()
-	rec.n, rec.extra, rec.data, rec.stopped = n, extra, data, stopped
+	rec.n, rec.extra, rec.data, rec.stopped, rec.partial, rec.sum = n, extra, data, stopped, partial, sum
 	switch {
 	case rerr == io.EOF:
 		rec.readErr = ""
 	case rerr != nil:
 		rec.readErr = rerr.Error()
+	case partial:
+		rec.readErr = "c16: partial read on purpose"
 	default:
 		rec.readErr = "c16: stopped pulling"
 	}
 	rec.mu.Unlock()
-	if rerr == io.EOF {
+	// the response names the request it answers and what its handler obtained
+	echo := r.Header.Get(hdrID) + " " + strconv.FormatInt(n, 10) + " " + sum
+	switch {
+	case rerr == io.EOF:
 		w.WriteHeader(http.StatusOK)
-		_, _ = io.WriteString(w, "ok "+strconv.FormatInt(n, 10))
+		_, _ = io.WriteString(w, "ok "+echo)
+	case partial:
+		w.WriteHeader(http.StatusOK)
+		_, _ = io.WriteString(w, "partial "+echo)
+	default:
+		// deliberately not a 4xx: a 4xx can then only come from the middleware
+		w.WriteHeader(http.StatusInsufficientStorage)
+	}
+}
+
+// gate is a rendezvous for the handlers of one burst.
+type gate struct {
+	mu       sync.Mutex
+	n, cnt   int
+	open     chan struct{}
+	timedOut int
+}
+
+func newGate(n int) *gate { return &gate{n: n, open: make(chan struct{})} }
+
+func (g *gate) arrive(wait bool) {
+	g.mu.Lock()
+	g.cnt++
+	if g.cnt == g.n {
+		close(g.open)
+	}
+	g.mu.Unlock()
+	if !wait {
 		return
 	}
-	// deliberately not a 4xx: a 4xx can then only come from the middleware
-	w.WriteHeader(http.StatusInsufficientStorage)
+	select {
+	case <-g.open:
+	case <-time.After(250 * time.Millisecond): // a member never got here (client-side failure): go on, only overlap is lost
+		g.mu.Lock()
+		g.timedOut++
+		g.mu.Unlock()
+	}
+}
+
+// arrive reports this request at its burst's gate exactly once.
+func (rec *record) arrive(wait bool) {
+	if rec.gate == nil {
+		return
+	}
+	rec.arrived.Do(func() { rec.gate.arrive(wait) })
 }
 
 // ---- client side ----
